@@ -468,6 +468,7 @@ func RunCheck(c *Check) int {
 	type group struct {
 		fv    FoundViolation
 		count int
+		alts  []FoundViolation // other occurrences, tried if the first does not replay
 	}
 	groups := map[string]*group{}
 	order := []string{}
@@ -486,10 +487,13 @@ func RunCheck(c *Check) int {
 		if g, ok := groups[key]; ok {
 			g.count++
 			if len(fv.Tape) > 0 && (len(g.fv.Tape) == 0 || len(fv.Tape) < len(g.fv.Tape)) {
+				g.alts = append(g.alts, g.fv)
 				g.fv = fv
+			} else if len(g.alts) < 3 {
+				g.alts = append(g.alts, fv)
 			}
 		} else {
-			groups[key] = &group{fv, 1}
+			groups[key] = &group{fv: fv, count: 1}
 			order = append(order, key)
 		}
 	}
@@ -498,7 +502,8 @@ func RunCheck(c *Check) int {
 	os.MkdirAll(filepath.Join(c.VerifDir, "replays"), 0o755)
 	lines := []string{}
 	nViol := 0
-	for gi, key := range order {
+	for gi := 0; gi < len(order); gi++ {
+		key := order[gi]
 		g := groups[key]
 		fv := g.fv
 		nViol++
@@ -538,6 +543,14 @@ func RunCheck(c *Check) int {
 						// Not reproducible alone: does it depend on what the same worker
 						// process ran before (state kept in package-level variables)?
 						if !replayWithPriors(&rf, fv, path) {
+							if len(g.alts) > 0 {
+								// another occurrence of the same violation class may replay
+								g.fv, g.alts = g.alts[len(g.alts)-1], g.alts[:len(g.alts)-1]
+								os.Remove(path)
+								nViol--
+								gi--
+								continue
+							}
 							total.harness = append(total.harness, fmt.Sprintf("violation %s at index %d does not replay in a fresh process, neither alone nor after the runs the same worker executed before it (file %s)", fv.V.Class, fv.Index, path))
 							nViol--
 							continue
